@@ -1511,5 +1511,67 @@ func c20UnionSingleMember(ctx *Ctx, r *Report) int {
 		r.Check(hasMax && max == 1, "cfgschema/union-single-member", u.file+" "+u.def+" holds one transformation", token.NoPos, "maxProperties: 1",
 			"the published definition "+u.def+" accepts an entry with several keys, which the loader refuses (or, before the repair, half applied): a file that validates in an editor does not load")
 	}
+	// the two unions of a pipeline file: one entry of `inputs`, one entry of `output.languages`
+	if gp := ctx.Pkg("internal/codegen"); gp == nil {
+		r.Undecided("anchor lost: internal/codegen")
+	} else {
+		ginfo := gp.TypesInfo
+		checked := func(fd *ast.FuncDecl, unionType string) bool {
+			found := false
+			ast.Inspect(fd.Body, func(m ast.Node) bool {
+				is, ok := m.(*ast.IfStmt)
+				if !ok || !endsInExit(is.Body) {
+					return true
+				}
+				as, ok := is.Init.(*ast.AssignStmt)
+				if !ok || len(as.Rhs) != 1 {
+					return true
+				}
+				c, ok := ast.Unparen(as.Rhs[0]).(*ast.CallExpr)
+				if !ok {
+					return true
+				}
+				f := callee(ginfo, c)
+				if f == nil || f.Pkg() == nil || f.Pkg() != yp.Types || !counts(f) {
+					return true
+				}
+				for _, a := range c.Args {
+					if namedName(ginfo.TypeOf(a)) == unionType {
+						found = true
+					}
+				}
+				return true
+			})
+			return found
+		}
+		data, err := os.ReadFile(filepath.Join(ctx.Repo, "schemas/pipeline.json"))
+		var defs map[string]any
+		if err == nil {
+			var doc map[string]any
+			if json.Unmarshal(data, &doc) == nil {
+				defs, _ = doc["$defs"].(map[string]any)
+			}
+		}
+		for _, u := range []struct{ typ, method, union, def string }{
+			{"Input", "loader", "Input", "CodegenInput"},
+			{"Pipeline", "OutputLanguages", "OutputLanguage", "CodegenOutputLanguage"},
+		} {
+			fn := ctx.LookupMethod("internal/codegen", u.typ, u.method)
+			fd, _ := ctx.DeclOf(fn)
+			if fd == nil || fd.Body == nil {
+				r.Undecided("anchor lost: codegen.%s.%s", u.typ, u.method)
+				continue
+			}
+			n++
+			r.Check(checked(fd, u.union), "cfgschema/union-single-member", "codegen."+u.typ+"."+u.method+" takes one member of "+u.union, fd.Pos(), "after a check that errs when several members are set",
+				"codegen."+u.typ+"."+u.method+" takes the first member of "+u.union+" that is set: `languages: [{go: {…}, typescript: {}}]` generates Go only, `inputs: [{jsonschema: {…}, cue: {…}}]` reads the JSON Schema only — the other member is dropped without a word")
+			def, _ := defs[u.def].(map[string]any)
+			max, hasMax := def["maxProperties"].(float64)
+			_, oneOf := def["oneOf"]
+			n++
+			r.Check((hasMax && max == 1) || oneOf, "cfgschema/union-single-member", "schemas/pipeline.json "+u.def+" holds one member", token.NoPos, "maxProperties: 1, or oneOf over the members",
+				"the published definition "+u.def+" accepts an entry with several members, which the loader refuses")
+		}
+	}
 	return n
 }
